@@ -86,7 +86,10 @@ ReadW(ped, r, a) == ReadWFrom(r.c, ped.haps[a + 1], Len(r.c))
 RECURSIVE MixWFrom(_, _, _, _)
 MixWFrom(ped, r, x, j) == IF j = 0 THEN 0 ELSE ReadW(ped, r, x[j]) + MixWFrom(ped, r, x, j - 1)
 MixW(ped, r, x) == MixWFrom(ped, r, x, Len(x))
-LWFactors(ped, rs, x) == IF Len(rs) = 0 THEN <<>> ELSE [m \in 1..Len(rs) |-> <<MixW(ped, rs[m], x), rs[m].n>>]
+(* a read row is a pair (calls, observation count); a row with count 0 is an   *)
+(* unused slot (padding, or a read that was masked) wherever it sits           *)
+RowCount(r) == r.n
+LWFactors(ped, rs, x) == IF Len(rs) = 0 THEN <<>> ELSE [m \in 1..Len(rs) |-> <<MixW(ped, rs[m], x), RowCount(rs[m])>>]
 (* L(x) for the read set rs, as an integer numerator                         *)
 RECURSIVE IntPow(_, _)
 IntPow(b, c) == IF c = 0 THEN 1 ELSE b * IntPow(b, c - 1)
@@ -312,6 +315,73 @@ SwapRatioIsPermRatio ==
         cr[1] * PermsOf(ped, t, p) * PermsOf(ped, t, q) = cr[2] * PermsOf(ped, s, p) * PermsOf(ped, s, q)
 
 (* ------------------------------------------------------------------------ *)
+(* the read set of an individual is a BAG of (read, count) rows: the joint     *)
+(* does not depend on the order of the read slots, and slots with count 0      *)
+(* (leading, interior or trailing) contribute nothing.  The harness relies on  *)
+(* these two laws when it lays the same pedigree out with permuted read slots  *)
+(* and extra unused slots and expects the same kernels.                        *)
+UsedRows(rs) == SelectSeq(rs, LAMBDA r : r.n > 0)
+SlotPerms(n) == {f \in [1..n -> 1..n] : \A a \in 1..n : \A b \in 1..n : a < b => f[a] # f[b]}
+ZeroCountNeutral ==
+  AtStart =>
+    \A i \in 1..Ped.n : \A g \in BagsOf(Ped.K, Ped.ploidy[i]) :
+       tab.lw[i][g] = LW(Ped, UsedRows(Ped.reads[i]), g)
+ReadOrderIrrelevant ==
+  AtStart =>
+    \A i \in 1..Ped.n :
+       LET rs == Ped.reads[i] IN
+       \A f \in SlotPerms(Len(rs)) : \A g \in BagsOf(Ped.K, Ped.ploidy[i]) :
+          tab.lw[i][g] = LW(Ped, [m \in 1..Len(rs) |-> rs[f[m]]], g)
+
+(* ------------------------------------------------------------------------ *)
+(* the kernel rows as probability vectors (what gibbs_probabilities /          *)
+(* metropolis_hastings_probabilities return, and the prob_accept of the pair   *)
+(* step), from the declarative target ratios.  They are functions of the       *)
+(* joint state only: no history of earlier updates (a likelihood cache is only *)
+(* a cache) enters.  TracePedigree validates recorded sampler rows against     *)
+(* them; RowsWellFormed, checked in every reachable state of the pedigrees in  *)
+(* RowPeds, guarantees that this arithmetic stays inside TLC's integers there. *)
+TargetRatios(ped, st, i, k) ==
+  TLCEval([b \in 0..(ped.K - 1) |-> PiRatio(ped, st, SetCell(st, i, k, b))])
+GibbsRow(ped, st, i, k) ==
+  LET R == TargetRatios(ped, st, i, k)
+      tot == RSumFn(R, 0..(ped.K - 1))
+  IN  TLCEval([b \in 0..(ped.K - 1) |-> RDiv(R[b], tot)])
+MHRow(ped, st, i, k) ==
+  LET R == TargetRatios(ped, st, i, k)
+      a == st[i][k]
+      off == TLCEval([b \in 0..(ped.K - 1) |-> IF b = a THEN RZero ELSE RMul(RMin1(R[b]), <<1, ped.K - 1>>)])
+  IN  TLCEval([b \in 0..(ped.K - 1) |-> IF b = a THEN RCompl(RSumFn(off, 0..(ped.K - 1))) ELSE off[b]])
+SwapAccept(ped, st, p, q, ip, iq) == RMin1(PiRatio(ped, st, SwapTarget(st, p, q, ip, iq)))
+
+(* floor(10^6 x) for a rational 0 <= x <= 1 by long division in base 100       *)
+(* (needs 100 * x[2] < 2^31)                                                   *)
+MicroOK(x) == x[1] <= x[2] /\ x[2] < 20000000
+Micro(x) ==
+  LET n == x[1]  d == x[2]
+      q1 == (n * 100) \div d   r1 == (n * 100) % d
+      q2 == (r1 * 100) \div d  r2 == (r1 * 100) % d
+      q3 == (r2 * 100) \div d
+  IN  q1 * 10000 + q2 * 100 + q3
+(* a float reported as round(10^6 v) agrees with the rational x                *)
+NearMicro(m, x) == LET u == Micro(x) IN m - u <= 2 /\ u - m <= 2
+
+RowPedNames == {"mixed4x2x_3x_K2", "mixed2x4x_3x_K2", "mixed3x_first_K2", "mixed2x4x_3x2x_K2",
+                "duo2x_gaps", "trio2x_gaps", "trio_plus_duo2x", "selfing4x_lambda", "mixed_duo_2x_3x",
+                "founders2x", "duo2x", "selfing2x", "duo4x_lambda", "trio2x_e0"}
+RowsWellFormed ==
+  LET ped == Ped IN
+  ped.name \in RowPedNames =>
+    /\ \A i \in 1..ped.n : \A k \in 1..ped.ploidy[i] :
+          LET g == GibbsRow(ped, s, i, k)
+              m == MHRow(ped, s, i, k)
+          IN  /\ RSumFn(g, 0..(ped.K - 1)) = ROne
+              /\ RSumFn(m, 0..(ped.K - 1)) = ROne
+              /\ \A b \in 0..(ped.K - 1) : MicroOK(g[b]) /\ MicroOK(m[b])
+    /\ \A pq \in Pairs(ped) : \A ip \in 1..ped.ploidy[pq[1]] : \A iq \in 1..ped.ploidy[pq[2]] :
+          MicroOK(SwapAccept(ped, s, pq[1], pq[2], ip, iq))
+
+(* ------------------------------------------------------------------------ *)
 (* mutant definitions                                                        *)
 MutOriginW(t, n) == ROne                                  \* origin weights dropped (D7)
 MutChildren(ped, i) ==                                    \* selfed children left out of the blanket
@@ -323,6 +393,7 @@ MutReadsOf(ped, p, q, i) ==                               \* D3: q's read rows m
   ELSE [m \in 1..Len(ped.reads[i]) |->
           IF m <= Len(ped.reads[p]) THEN ped.reads[i][m] ELSE [c |-> ped.reads[i][m].c, n |-> 0]]
 MutMHCnt(x, a) == 1                                       \* proposal (copy-count) ratio dropped
+MutRowCount(r) == IF r.n = 0 THEN 1 ELSE r.n              \* unused read slots enter the likelihood
 
 (* ------------------------------------------------------------------------ *)
 (* one record per reachable joint state: the exact factors of pi(s)          *)
@@ -334,7 +405,7 @@ Dump ==
                 [lw |-> LWFactors(ped, ped.reads[i], s[i]), trio |-> TrioOf(ped, s, i), perms |-> PermsOf(ped, s, i)]]])>>)
 (* the pedigree definitions themselves (printed once; the harness builds the  *)
 (* implementation's arrays from them)                                        *)
-DumpPeds == PrintT(<<"@@J", ToJson([peds |-> Peds])>>)
+DumpPeds == PrintT(<<"@@J", ToJson([peds |-> Peds, rowpeds |-> RowPedNames])>>)
 
 (* ------------------------------------------------------------------------ *)
 (* configurations: the pedigree menu                                         *)
@@ -447,13 +518,55 @@ PedDuo4xLam ==      \* unknown p, known tetraploid q with double reduction
    lam |-> << <<Z, Z>>, << Z, <<1, 4>> >> >>, err |-> << <<U, U>>, << U, <<1, 4>> >> >>, f |-> F2skew, haps |-> Haps2,
    reads |-> << << R(<<1, -1>>, 1) >>, << R(<<-1, 1>>, 1) >> >>]
 
+(* --- mixed ploidy in other sample orders (the order of the individuals is    *)
+(* the order of the samples in every array the sampler gets), with read rows   *)
+(* whose unused (count 0) slots are leading / interior                         *)
+Q4 == <<1, 4>>
+PedMixedB ==        \* lower ploidy first: 2x, 4x founders, 3x child with tau = (1, 2)
+  [name |-> "mixed2x4x_3x_K2", K |-> 2, n |-> 3, ploidy |-> <<2, 4, 3>>,
+   par |-> << <<0, 0>>, <<0, 0>>, <<1, 2>> >>, tau |-> << <<1, 1>>, <<2, 2>>, <<1, 2>> >>,
+   lam |-> NoLam(3), err |-> << <<U, U>>, <<U, U>>, <<Q4, Q4>> >>, f |-> F2flat, haps |-> Haps2,
+   reads |-> << << R(<<1, -1>>, 0), R(<<-1, 1>>, 1), R(<<0, -1>>, 1) >>,
+                << R(<<1, -1>>, 1), R(<<0, 0>>, 0), R(<<-1, 0>>, 2) >>,
+                << R(<<0, 1>>, 1) >> >>]
+PedMixedC ==        \* the child is listed BEFORE its parents: 3x child of (2, 3), 4x, 2x
+  [name |-> "mixed3x_first_K2", K |-> 2, n |-> 3, ploidy |-> <<3, 4, 2>>,
+   par |-> << <<2, 3>>, <<0, 0>>, <<0, 0>> >>, tau |-> << <<2, 1>>, <<2, 2>>, <<1, 1>> >>,
+   lam |-> NoLam(3), err |-> << <<Q4, Q4>>, <<U, U>>, <<U, U>> >>, f |-> F2flat, haps |-> Haps2,
+   reads |-> << << R(<<1, 0>>, 0), R(<<-1, -1>>, 0), R(<<0, 1>>, 2) >>,
+                << R(<<-1, 1>>, 1) >>,
+                << R(<<0, -1>>, 1), R(<<1, 1>>, 0), R(<<1, -1>>, 0), R(<<-1, 0>>, 1) >> >>]
+PedMixedD ==        \* 2x, 4x founders, 3x child of (1, 2), 2x child of (1, unknown)
+  [name |-> "mixed2x4x_3x2x_K2", K |-> 2, n |-> 4, ploidy |-> <<2, 4, 3, 2>>,
+   par |-> << <<0, 0>>, <<0, 0>>, <<1, 2>>, <<1, 0>> >>,
+   tau |-> << <<1, 1>>, <<2, 2>>, <<1, 2>>, <<1, 1>> >>,
+   lam |-> NoLam(4), err |-> << <<U, U>>, <<U, U>>, <<Q4, Q4>>, <<Q4, U>> >>, f |-> F2flat, haps |-> Haps2,
+   reads |-> << << R(<<1, -1>>, 1) >>, << R(<<0, 1>>, 0), R(<<-1, 1>>, 1), R(<<0, -1>>, 1) >>,
+                << R(<<1, 0>>, 1) >>, << R(<<-1, 0>>, 0), R(<<0, 1>>, 1) >> >>]
+(* --- uniform ploidy, read rows with leading / interior unused slots          *)
+PedDuoGaps ==
+  [name |-> "duo2x_gaps", K |-> 3, n |-> 2, ploidy |-> <<2, 2>>,
+   par |-> << <<0, 0>>, <<1, 0>> >>, tau |-> << <<1, 1>>, <<1, 1>> >>,
+   lam |-> NoLam(2), err |-> << <<U, U>>, <<Q4, U>> >>, f |-> F3flat, haps |-> Haps3,
+   reads |-> << << R(<<1, -1, -1>>, 0), R(<<-1, -1, 1>>, 1), R(<<0, 1, -1>>, 0), R(<<-1, 1, -1>>, 2) >>,
+                << R(<<-1, 1, 0>>, 0), R(<<1, -1, -1>>, 1) >> >>]
+PedTrioGaps ==
+  [name |-> "trio2x_gaps", K |-> 2, n |-> 3, ploidy |-> <<2, 2, 2>>,
+   par |-> << <<0, 0>>, <<0, 0>>, <<1, 2>> >>, tau |-> << <<1, 1>>, <<1, 1>>, <<1, 1>> >>,
+   lam |-> NoLam(3), err |-> << <<U, U>>, <<U, U>>, <<Q4, Q4>> >>, f |-> F2flat, haps |-> Haps2,
+   reads |-> << << R(<<0, -1>>, 0), R(<<1, -1>>, 1) >>,
+                << R(<<-1, 1>>, 1), R(<<0, 0>>, 0), R(<<1, 0>>, 1) >>,
+                << R(<<1, 1>>, 0), R(<<0, -1>>, 0), R(<<0, 1>>, 1) >> >>]
+
+
 PedsQuick == << PedFounders, PedDuo, PedTrio2x, PedTrio2xE0, PedSelfing, PedMixed2, PedHalfSibs, PedTrioPlusDuo, PedSelfing4x, PedTwoGen,
-               PedMixedDuo, PedDuo4xLam >>
-PedsThorough == PedsQuick \o << PedTetraLam, PedClone, PedMixed3, PedTrio2xB >>
+               PedMixedDuo, PedDuo4xLam, PedMixedB, PedMixedC, PedDuoGaps, PedTrioGaps >>
+PedsThorough == PedsQuick \o << PedTetraLam, PedClone, PedMixed3, PedTrio2xB, PedMixedD >>
 PedsBalanced == << PedTrio2x, PedSelfing, PedHalfSibs >>
 PedsMixedOnly == << PedMixed2 >>
 PedsSelfOnly == << PedSelfing >>
 PedsTrioOnly == << PedTrio2x >>
+PedsGapsOnly == << PedDuoGaps >>
 
 ASSUME DumpPeds
 =============================================================================
